@@ -6,9 +6,22 @@ import rcommon
 
 META = {
     "property_id": "C09",
-    "technique": "Coq invariant proofs over an interleaving model of runner/runner.go + trace acceptance of hook logs of the real runner",
-    "level_text": "TBD",
-    "level_note": "TBD",
+    "technique": "Coq invariant proofs over an interleaving model of runner/runner.go (one model step per critical "
+                 "section / atomic operation) + trace acceptance of hook logs of the real runner by the model",
+    "level_text": "Theorems (Coq, all configurations, all schedules, all limits): capacity + holders = limit in every reachable "
+                  "state; at most `limit` targets are inside LoadTarget or inside Evaluate-outside-EvaluateTargets; a goroutine "
+                  "never exits the gate more often than it entered and holds exactly one slot between an enter and the matching "
+                  "exit; a goroutine walking or waiting on dependencies holds none; at quiescence the gate is full and every "
+                  "goroutine's enters equal its exits; with limit 1 every non-quiescent state has an enabled thread. The model is "
+                  "tied to runner.go by replaying the hook log of hundreds (quick) / thousands (thorough) of real runs "
+                  "(limits 1,2,3,4,16 and the exported Run) through the model: every gate.enter/gate.exit must be enabled in the "
+                  "model and log the model's capacity. Direct oracles on the implementation: executing-counter <= limit, gate "
+                  "capacity = limit at quiescence, no hang.",
+    "level_note": "Trusted: Coq kernel; the hook dispatcher (log order = memory order: events are logged inside the critical "
+                  "section they witness, the three lock-free operations are bracketed by the log mutex); sync.Mutex/sync.Cond "
+                  "semantics (gate.enter is modelled as the atomic `await capacity>0; capacity--`); that the limit is "
+                  "runtime.NumCPU() is a configuration fact, exercised by the runs through the exported Run only. Schedules are "
+                  "sampled (seeded jitter), not enumerated.",
     "design_ref": "DESIGN.md §6 C09, Appendix B",
 }
 
